@@ -27,6 +27,9 @@ CHECKS = {
  'C12': dict(engine='cases', tech='TLA+ reference semantics by state enumeration (spec/Slim.tla: master-equation generator as sum of elementary reaction terms; Ulam count tables), configurations enumerated by TLC, reference checked by TLC invariants (ColumnSumsZero, OffDiagNonNeg), results replayed against slim_mme / slim_mme_hom / ulam_2d / ulam_3d',
              text='TLC enumerates state-space vectors with equal and unequal cell sizes, reaction-list shapes and seeds, open/cyclic, the homogeneous wrapper, every single two-cell reaction on two cells, and Ulam tables with duplicates and unsampled boxes; it computes the exact generator / count table and checks the generator invariants on the reference; the library operator is contracted and compared entry-wise.',
              note='trusted: TLC, spec/Slim.tla, harness contraction; integer rates', ref='§5 C12'),
+ 'C20': dict(engine='cases', tech='TLA+ state machine of site-by-site inverse-CDF sampling with exact integer Born marginals (spec/Sampling.tla; invariants ChainRule, PrefixPossible checked by TLC); TLC-generated behaviours (variates -> samples) replayed into quantum_computation.sampling with patched numpy.random.rand',
+             text='TLC runs the sampling machine for every qubit count <= 4, rank profile, real/complex fill, non-empty measured subset and variate matrix in bounds, checks the chain rule in every state, and emits the exactly predicted distinct bit strings and frequencies; the real sampler fed with the same variates must reproduce them exactly; a seeded 20000-sample run must be within total variation 0.05 of the exact marginal.',
+             note='trusted: TLC, spec/Sampling.tla, unittest.mock patch of numpy.random.rand; state prepared by ortho_right + normalisation (covered by C03)', ref='§5 C20'),
 }
 NA_REASON = 'check not built yet (work in progress)'
 
